@@ -15,7 +15,7 @@ LINK = ["-Wl,--wrap=lzma_simple_coder_init"]
 TELL_NO, TELL_UNSUP, TELL_ANY, CONCAT, IGNORE, FAILFAST = 1, 2, 4, 8, 0x10, 0x20
 EXTREME = 1 << 31
 RET = {0: "OK", 1: "STREAM_END", 2: "NO_CHECK", 3: "UNSUPPORTED_CHECK", 4: "GET_CHECK", 5: "MEM_ERROR", 6: "MEMLIMIT_ERROR",
-       7: "FORMAT_ERROR", 8: "OPTIONS_ERROR", 9: "DATA_ERROR", 10: "BUF_ERROR", 11: "PROG_ERROR", 12: "SEEK_NEEDED", 98: "RUNAWAY-OUTPUT", 99: "HANG"}
+       7: "FORMAT_ERROR", 8: "OPTIONS_ERROR", 9: "DATA_ERROR", 10: "BUF_ERROR", 11: "PROG_ERROR", 12: "SEEK_NEEDED", 97: "SPURIOUS-BUF_ERROR", 98: "RUNAWAY-OUTPUT", 99: "HANG"}
 BCJ = ["x86", "powerpc", "ia64", "arm", "armthumb", "arm64", "sparc", "riscv"]
 BCJ_ALIGN = {"x86": 1, "powerpc": 4, "ia64": 16, "arm": 4, "armthumb": 2, "arm64": 4, "sparc": 4, "riscv": 2}
 
@@ -450,7 +450,7 @@ def sweep_items(rng, n_in, n_out, level, seed):
     it = []
     if level == "full":
         it += ["S:0:%d:1" % n_in, "O:0:%d:1" % min(n_out + 2, 4200)]
-        it += ["B:%d" % k for k in range(13)]
+        it += ["B:%d" % k for k in range(16)]
         it += ["R:%d:12:400:16:16:25" % seed, "R:%d:6:60:%d:%d:10" % (seed + 100, max(1, n_in // 3), max(1, n_out // 3)),
                "R:%d:4:2000:3:3:50" % (seed + 200), "X:%d:24:%d" % (seed, n_out + 3), "N", "B:1", "B:3", "R:%d:6:300:9:9:40" % (seed + 300), "N"]
     elif level == "sample":
@@ -461,6 +461,7 @@ def sweep_items(rng, n_in, n_out, level, seed):
         it += ["O:%d:%d:%d" % (rng.randrange(ostep), min(n_out + 2, 4200), ostep)]
         it += ["B:%d" % k for k in (0, 3, 6, 7)] if n_in + n_out < 3000 else ["B:0", "B:3"]
         it += ["B:%d" % k for k in (8, 9, 10, 11, 12)] if n_in + n_out < 20000 else ["B:%d" % rng.choice((9, 10, 12))]
+        it += ["B:13", "B:14", "B:15"]
         it += ["R:%d:4:300:16:16:25" % seed, "R:%d:3:40:%d:%d:10" % (seed + 100, max(1, n_in // 3), max(1, n_out // 3)),
                "X:%d:6:%d" % (seed, n_out + 3), "N", "B:3" if n_in + n_out < 3000 else "R:%d:1:200:9:9:40" % (seed + 300), "N"]
     elif level == "light":
@@ -468,10 +469,10 @@ def sweep_items(rng, n_in, n_out, level, seed):
                "R:%d:2:200:%d:%d:20" % (seed, max(1, n_in // 5), max(1, n_out // 5)), "R:%d:1:3000:40:40:30" % (seed + 50)]
         if n_in + n_out < 200000:
             it += ["B:0"]
-        it += ["B:%d" % rng.choice((9, 10, 11, 12))]
+        it += ["B:%d" % rng.choice((9, 10, 11, 12)), "B:%d" % rng.choice((13, 14)), "B:15"]
     elif level == "mt":
         it += ["S:%d" % rng.randrange(n_in + 1), "R:%d:2:100:%d:%d:20" % (seed, max(1, n_in // 5), max(1, n_out // 5)),
-               "R:%d:1:1500:64:64:30" % (seed + 50), "B:%d" % rng.choice((8, 9, 10)), "B:12"]
+               "R:%d:1:1500:64:64:30" % (seed + 50), "B:%d" % rng.choice((8, 9, 10)), "B:12", "B:%d" % rng.choice((13, 14)), "B:15"]
         if n_in + n_out < 6000:
             it += ["B:0", "B:3"]
     # handle reuse: a seeded half of the sweeps starts on the process-wide handle that another coder used last (G), and checks
@@ -567,6 +568,66 @@ def xz_index_records(data):
             return None
         recs.append((u, v))
     return recs
+
+
+def rand_chain(rng, last=None):
+    """A random valid filter chain over the full option space (struct spec for the harness): lc/lp/pb 0..4 with lc+lp <= 4,
+    depth 0 and non-zero, nice_len, match finder, mode, odd dictionary sizes, delta distances, BCJ start offsets 0 and non-zero."""
+    last = last or rng.choice(("lzma2", "lzma2", "lzma2", "lzma1"))
+    lc = rng.randrange(0, 5)
+    lp = rng.randrange(0, 5 - lc)
+    pb = rng.randrange(0, 5)
+    mf = rng.choice(sorted(MF))
+    nice = max({"hc3": 3, "hc4": 4, "bt2": 2, "bt3": 3, "bt4": 4}[mf], rng.choice((2, 3, 4, 5, 8, 16, 32, 64, 128, 272, 273, rng.randrange(2, 274))))
+    depth = rng.choice((0, 0, 0, 1, 4, 100, rng.randrange(1, 1000)))
+    dsz = rng.choice((4096, 4097, 8192, 65536, 12345, 1 << 20, 3 << 19, rng.randrange(4096, 1 << 22)))
+    fs = []
+    if last == "lzma2":
+        for _ in range(rng.choice((0, 0, 1, 1, 2, 3))):
+            if rng.random() < 0.4:
+                fs.append("delta,dist=%d" % rng.choice((1, 2, 3, 4, 255, 256, rng.randrange(1, 257))))
+            else:
+                b = rng.choice(BCJ)
+                r = rng.random()
+                fs.append(b if r < 0.35 else "%s,start=0" % b if r < 0.55 else "%s,start=%d" % (b, BCJ_ALIGN[b] * rng.randrange(1, 1 << 20)))
+    fs.append("%s,dict=%d,lc=%d,lp=%d,pb=%d,mode=%d,nice=%d,mf=%d,depth=%d" % (last, dsz, lc, lp, pb, rng.choice((1, 2)), nice, MF[mf], depth))
+    return "+".join(fs)
+
+
+def string_forms(ctx, H, C):
+    """lzma_str_from_filters / lzma_str_to_filters: (a) the round trip gives the chain back field by field; (b) the textual form
+    produced by the library denotes the same encoder: identical bytes for the struct-defined and the string-defined chain."""
+    rng, quick = ctx.rng, ctx.quick()
+    specs = [rand_chain(rng) for _ in range(150 if quick else 1500)]
+    # corners: every zero-valued option at once, and each alone
+    specs += ["lzma2,dict=4096,lc=0,lp=0,pb=0,mode=1,nice=8,mf=3,depth=0", "lzma2,dict=4096,lc=0,lp=2,pb=0,mode=2,nice=32,mf=20,depth=0",
+              "lzma1,dict=4096,lc=0,lp=0,pb=0,mode=2,nice=64,mf=20,depth=0", "x86,start=0+delta,dist=1+lzma2,dict=65536,lc=3,lp=0,pb=2,mode=2,nice=64,mf=20,depth=0",
+              "lzma2,dict=4096,lc=4,lp=0,pb=4,mode=2,nice=273,mf=18,depth=1"]
+    lines = ["strrt " + sp for sp in specs]
+    outs = H.run(lines)
+    nbad = 0
+    texts = []
+    for sp, ln, o in zip(specs, lines, outs):
+        if o is None:
+            continue
+        ctx.cov["evaluations"] += 1
+        ctx.count("string-roundtrip:" + ("ok" if o.startswith("ok ") else "diff"))
+        if o.startswith("ok "):
+            texts.append((sp, o[3:].strip()))
+        else:
+            nbad += 1
+            if nbad <= 5:
+                ctx.violation("string-roundtrip", {"kind": "lzma_str_to_filters(lzma_str_from_filters(f)) differs from f", "op": ln, "result": o,
+                                                   "expect_prefix": "ok "}, True)
+    plains = [gen_plain(rng, 1500, "text"), gen_plain(rng, 3000, "code"), gen_plain(rng, 700, "wave")]
+    for sp, text in (texts if not quick else rng.sample(texts, min(len(texts), 60)) + texts[-5:]):
+        pl = rng.choice(plains)
+        if sp.split("+")[-1].startswith("lzma1"):
+            C.group("struct-vs-library-string", "f", pl, [("rawe:" + sp, "F", "W"), ("rawe:@" + text, "F", "W")])
+        else:
+            ck = rng.choice((0, 1, 4, 10))
+            C.group("struct-vs-library-string", "f", pl, [("se:%d:%s" % (ck, sp), "F", "W"), ("se:%d:@%s" % (ck, text), "F", "W")])
+    return nbad
 
 
 def build_cases(ctx, H):
@@ -674,7 +735,9 @@ def build_cases(ctx, H):
         lz("lzma2", dict=8192, lc=4, lp=0, pb=4, mode="normal", mf="bt2", nice=273, depth=4),
         lz("lzma2", dict=4096, lc=1, lp=3, pb=1, mode="fast", mf="hc4", nice=32, depth=1),
         lz("lzma2", dict=65536, mode="normal", mf="bt3", nice=5),
-        lz("lzma2", dict=4096, mode="normal", mf="bt4", nice=2),
+        lz("lzma2", dict=4096, mode="normal", mf="bt4", nice=4),
+        lz("lzma2", dict=4096, lc=0, lp=0, pb=0, depth=0, mode="normal", mf="bt4", nice=16),
+        lz("lzma2", dict=4096, lc=0, lp=4, pb=0, depth=0, mode="fast", mf="hc4", nice=16),
         lz("lzma2", preset=0), lz("lzma2", preset=3), lz("lzma2", preset=1 | EXTREME, dict=16384),
     ]
     chains = [chain(v) for v in lz_variants]
@@ -729,7 +792,7 @@ def build_cases(ctx, H):
             k, pl = rng.choice(plains[3:])
             enc("microe:%d:%s" % (cap, ss), pl, "micro", dict(level="light", opts=ss))
     # threaded encoder: identical bytes for every thread count / timeout; several block sizes and chains
-    mt_cfgs = [("4096:1", chains[0][0]), ("8192:4", chains[9][0] if len(chains) > 9 else chains[0][0]), ("16384:0", "1"), ("0:10", "0")]
+    mt_cfgs = [("4096:1", chains[0][0]), ("8192:4", chains[11][0] if len(chains) > 11 else chains[0][0]), ("16384:0", "1"), ("0:10", "0")]
     if not quick:
         mt_cfgs += [("5000:4", chain("x86", small)[0]), ("65536:1", "6"), ("12345:4", str(3 | EXTREME))]
     mt_plains = [big_plains[0][1][:20000], big_plains[1][1][:33000]] + ([] if quick else [big_plains[2][1][:200000]]) + [plains[3][1], b""]
@@ -757,6 +820,8 @@ def build_cases(ctx, H):
         for n in ((4096 * 2 + rng.randrange(1, 4096),) if quick else (4096 * 2 + rng.randrange(1, 4096), 4096 * 3, 4096 + rng.randrange(1, 12), 700)):
             pl = gen_plain(rng, n, "code")
             enc("semt:%d:0:4096:%d:%s" % (rng.choice((1, 2, 3)), rng.choice(checks), ss), pl, "xz-mt", dict(level="mt", multiblock=True, mtbcj=True))
+
+    C.string_bad = string_forms(ctx, H, C)
 
     # ---- phase A: run the encoders whole-buffer to obtain their output (also the encoders' reference) ----------------
     lines = ["run %s F %s fresh full W" % (c, hx(pl)) for (c, pl, _, _) in enc_jobs]
@@ -1236,7 +1301,7 @@ def replay(ctx, path):
     if "op" in r and "runs" not in r:
         rc, out, err = vlib.run_lines([exe], [r["op"]])
         print("rc", rc, out, err[-2000:])
-        if rc != 0:
+        if rc != 0 or (r.get("expect_prefix") and not (out and out[0].startswith(r["expect_prefix"]))):
             print("VIOLATION property=C06 replay=%s" % path)
             return 1
         print("replay passes")
